@@ -309,7 +309,9 @@ class VariableElimination(Inference):
         # Step 2: If virtual_evidence is provided, modify the network.
         if isinstance(self.model, BayesianNetwork) and (virtual_evidence is not None):
             self._virtual_evidence(virtual_evidence)
-            virt_evidence = {"__" + cpd.variables[0]: 0 for cpd in virtual_evidence}
+            virt_evidence = {
+                "__" + str(cpd.variables[0]): 0 for cpd in virtual_evidence
+            }
             return self.query(
                 variables=variables,
                 evidence={**evidence, **virt_evidence},
@@ -559,7 +561,9 @@ class VariableElimination(Inference):
 
         if isinstance(self.model, BayesianNetwork) and (virtual_evidence is not None):
             self._virtual_evidence(virtual_evidence)
-            virt_evidence = {"__" + cpd.variables[0]: 0 for cpd in virtual_evidence}
+            virt_evidence = {
+                "__" + str(cpd.variables[0]): 0 for cpd in virtual_evidence
+            }
             return self.map_query(
                 variables=variables,
                 evidence={**evidence, **virt_evidence},
@@ -1120,7 +1124,9 @@ class BeliefPropagation(Inference):
         # Step 2: If virtual_evidence is provided, modify model and evidence.
         if isinstance(self.model, BayesianNetwork) and (virtual_evidence is not None):
             self._virtual_evidence(virtual_evidence)
-            virt_evidence = {"__" + cpd.variables[0]: 0 for cpd in virtual_evidence}
+            virt_evidence = {
+                "__" + str(cpd.variables[0]): 0 for cpd in virtual_evidence
+            }
             return self.query(
                 variables=variables,
                 evidence={**evidence, **virt_evidence},
@@ -1219,7 +1225,9 @@ class BeliefPropagation(Inference):
 
         if isinstance(self.model, BayesianNetwork) and (virtual_evidence is not None):
             self._virtual_evidence(virtual_evidence)
-            virt_evidence = {"__" + cpd.variables[0]: 0 for cpd in virtual_evidence}
+            virt_evidence = {
+                "__" + str(cpd.variables[0]): 0 for cpd in virtual_evidence
+            }
             return self.map_query(
                 variables=variables,
                 evidence={**evidence, **virt_evidence},
